@@ -73,6 +73,64 @@ Fixpoint bindps (ps : list param) (args : list query) (env : venv) {struct args}
   end.
 End BindPs.
 
+(* destructuring: the bindings a pattern makes on a value (the last one first), or the error of the failing access *)
+Section PMatch.
+Variable nt : natives.
+Definition index_arr (w : jv) (i : nat) : jv + err0 :=
+  match w with
+  | VNull | VArr _ => n_index nt w (VNum (Z.of_nat i))
+  | _ => inr (EMsg [])                    (* expectedArrayError *)
+  end.
+Fixpoint pmatch (p : pattern) (w : jv) : venv + err0 :=
+  match p with
+  | PVar x => inl [(x, BV w)]
+  | PArr l => parr_match l 0 w
+  | PObj l => pobj_match l w
+  end
+with parr_match (l : parr) (i : nat) (w : jv) : venv + err0 :=
+  match l with
+  | ANil => inl []
+  | ACons p r =>
+      match index_arr w i with
+      | inl wi => match pmatch p wi with
+                  | inl b1 => match parr_match r (S i) w with inl b2 => inl (b2 ++ b1) | inr e => inr e end
+                  | inr e => inr e end
+      | inr e => inr e
+      end
+  end
+with pobj_match (l : pobj) (w : jv) : venv + err0 :=
+  match l with
+  | ONil => inl []
+  | OKey k p r =>
+      match n_index nt w (VStr k) with
+      | inl wk => match pmatch p wk with
+                  | inl b1 => match pobj_match r w with inl b2 => inl (b2 ++ b1) | inr e => inr e end
+                  | inr e => inr e end
+      | inr e => inr e
+      end
+  | OKeyVar k x p r =>
+      match n_index nt w (VStr k) with
+      | inl wk => match pmatch p wk with
+                  | inl b1 => match pobj_match r w with inl b2 => inl (b2 ++ b1 ++ [(x, BV wk)]) | inr e => inr e end
+                  | inr e => inr e end
+      | inr e => inr e
+      end
+  end.
+End PMatch.
+
+(* object construction: the entries in order, an earlier entry in an outer loop, the key before the value;
+   acc: the pairs of the entries already evaluated *)
+Section DenEnts.
+Variable ev : query -> result.
+Fixpoint den_ents (es : list ((list N + query) * query)) (acc : list (jv * jv)) : result :=
+  match es with
+  | [] => of_sum (mk_obj acc)
+  | (k, qv) :: r =>
+      bind (match k with inl s => ([VStr s], None) | inr kq => ev kq end)
+           (fun kv => bind (ev qv) (fun w => den_ents r (acc ++ [(kv, w)])))
+  end.
+End DenEnts.
+
 Section Den.
 Variable nt : natives.
 
@@ -183,6 +241,16 @@ Fixpoint den1 (call : query -> venv -> jv -> result) (q : query) (rho : venv) (v
       | Some (BP a rho_a, _) => call a rho_a v
       | _ => ([], None)
       end
+  | QObject es => den_ents (fun a => go a rho v) es []
+  (* t[q], t[a:b]: the index / the bounds are enumerated before the term (start, then end, then t) *)
+  | QIndexQ t q => bind (go q rho v) (fun k => bind (go t rho v) (fun w => of_sum (n_index nt w k)))
+  | QSlice t a b =>
+      bind (go a rho v) (fun s => bind (go b rho v) (fun e => bind (go t rho v) (fun w => of_sum (n_slice nt w e s))))
+  | QBindP src p body =>
+      bind (go src rho v) (fun w => match pmatch nt p w with
+                                    | inl bs => go body (bs ++ rho) v
+                                    | inr e => ([], Some (XErr e))
+                                    end)
   end.
 
 Fixpoint call_of (fu : nat) : query -> venv -> jv -> result :=
